@@ -189,13 +189,19 @@ class PropertyRun:
                       'solver_s': r.stats.get('solver_time', 0),
                       'reached': r.stats.get('reached', {}),
                       'candidates': len(r.candidates)})
-    # vacuity: every job must have reached its witness points
+    # vacuity: every job (shards of one job taken together) must have reached
+    # its witness points
+    groups = {}
     for r in results:
-      need = getattr(mod, 'REACH', {}).get(r.job.split(':')[0], None)
-      if need:
-        for w in need:
-          if not r.stats.get('reached', {}).get(w):
-            inconclusive.append(f'{r.job}: vacuity witness {w} never reached')
+      g = r.job.split(':shard')[0]
+      d = groups.setdefault(g, {})
+      for k, v in r.stats.get('reached', {}).items():
+        d[k] = d.get(k, 0) + v
+    for g, reached in groups.items():
+      need = getattr(mod, 'REACH', {}).get(g.split(':')[0], None)
+      for w in need or []:
+        if not reached.get(w):
+          inconclusive.append(f'{g}: vacuity witness {w} never reached')
     # replay
     violations, known_hits, replayed = [], [], 0
     known_obligations = 0
@@ -311,6 +317,13 @@ def main(argv=None):
   a = ap.parse_args(argv)
   seed = int(os.environ.get('VERIF_SEED', '0'))
   os.environ.setdefault('TF_CPP_MIN_LOG_LEVEL', '3')
+  try:
+    from absl import logging as absl_logging
+    absl_logging.set_verbosity(absl_logging.FATAL)
+    import logging as _pl
+    _pl.getLogger('absl').setLevel(_pl.CRITICAL)
+  except Exception:  # pylint: disable=broad-except
+    pass
   mod = importlib.import_module(f'props.{a.prop.lower()}')
   if a.replay:
     with open(a.replay) as f:
